@@ -99,8 +99,13 @@ type Analyzer struct {
 	notes       map[string]bool
 	excluded    map[string]bool
 	syncedM     string
-	exprFn      types.Type // govaluate.ExpressionFunction
-	exprParams  types.Type // govaluate.Parameters
+	helpers     []string
+	wrapperSet  map[*ssa.Function]bool            // the exported API wrappers (never walked inline)
+	lockish     map[*ssa.Function]bool            // functions that (transitively) operate e.m, or create / pass on a function that does
+	modTaken    map[*ssa.Function]bool            // functions whose address is taken inside the module
+	boundRecv   map[*ssa.Function]map[string]bool // bound method wrapper -> locations of the receivers bound to it
+	exprFn      types.Type                        // govaluate.ExpressionFunction
+	exprParams  types.Type                        // govaluate.Parameters
 	rounds      int
 }
 
@@ -116,18 +121,30 @@ func newAnalyzer(prog *ssa.Program) *Analyzer {
 		closureSite: map[*ssa.Function]*ssa.MakeClosure{}, implCache: map[string][]*ssa.Function{},
 		benign: map[benignKey]*benignEntry{}, record: map[*ssa.Function]bool{}, groupStores: map[*ssa.Function][]storeRec{},
 		guardsOf: map[string]map[string]bool{}, notes: map[string]bool{}, excluded: map[string]bool{},
-		syncedM: "casbin.SyncedEnforcer.m", final: map[*ssa.Function]*funcAnalysis{}, cells: map[*ssa.Alloc]*cellInfo{}}
+		syncedM: "casbin.SyncedEnforcer.m", final: map[*ssa.Function]*funcAnalysis{}, cells: map[*ssa.Alloc]*cellInfo{},
+		wrapperSet: map[*ssa.Function]bool{}, lockish: map[*ssa.Function]bool{}, modTaken: map[*ssa.Function]bool{},
+		boundRecv: map[*ssa.Function]map[string]bool{}}
 	taken := map[*ssa.Function]bool{}
 	for fn := range ssautil.AllFunctions(prog) {
 		if fn.Blocks == nil {
 			continue
 		}
+		inMod := fn.Pkg != nil && isBuilt(fn.Pkg)
 		for _, b := range fn.Blocks {
 			for _, ins := range b.Instrs {
 				if mc, ok := ins.(*ssa.MakeClosure); ok {
 					if f, ok := mc.Fn.(*ssa.Function); ok {
 						A.closureSite[f] = mc
 						taken[f] = true
+						if inMod {
+							A.modTaken[f] = true
+						}
+						if strings.HasPrefix(f.Synthetic, "bound method wrapper") && len(mc.Bindings) == 1 {
+							if A.boundRecv[f] == nil {
+								A.boundRecv[f] = map[string]bool{}
+							}
+							A.boundRecv[f][locOf(mc.Bindings[0])] = true
+						}
 					}
 					continue
 				}
@@ -141,6 +158,9 @@ func newAnalyzer(prog *ssa.Program) *Analyzer {
 							continue
 						}
 						taken[f] = true
+						if inMod {
+							A.modTaken[f] = true
+						}
 					}
 				}
 			}
@@ -190,6 +210,65 @@ var builtPkgs = map[*ssa.Package]bool{}
 func isBuilt(p *ssa.Package) bool { return builtPkgs[p] }
 
 func (A *Analyzer) note(s string) { A.notes[s] = true }
+
+func (A *Analyzer) sumAPI(f *ssa.Function) map[string]bool {
+	if s := A.sum[f]; s != nil {
+		return s.API
+	}
+	return nil
+}
+
+// computeLockish marks the functions the section walk has to look into: those whose summary says
+// they may operate the SyncedEnforcer's mutex, and (to a fixpoint) those that create or mention a
+// function value that does.
+func (A *Analyzer) computeLockish() {
+	A.lockish = map[*ssa.Function]bool{}
+	for f, s := range A.sum {
+		if s != nil && len(s.API) > 0 {
+			A.lockish[f] = true
+		}
+	}
+	refs := map[*ssa.Function][]*ssa.Function{}
+	for _, f := range A.order {
+		for _, b := range f.Blocks {
+			for _, ins := range b.Instrs {
+				if mc, ok := ins.(*ssa.MakeClosure); ok {
+					if g, ok := mc.Fn.(*ssa.Function); ok {
+						refs[f] = append(refs[f], g)
+					}
+					continue
+				}
+				var callee ssa.Value
+				if ci, ok := ins.(ssa.CallInstruction); ok && !ci.Common().IsInvoke() {
+					callee = ci.Common().Value
+				}
+				for _, op := range ins.Operands(nil) {
+					if g, ok := (*op).(*ssa.Function); ok {
+						if callee != nil && callee == ssa.Value(g) && !usedAsArg(ins, g) {
+							continue
+						}
+						refs[f] = append(refs[f], g)
+					}
+				}
+			}
+		}
+	}
+	for changed := true; changed; {
+		changed = false
+		for f, gs := range refs {
+			if A.lockish[f] {
+				continue
+			}
+			for _, g := range gs {
+				if A.lockish[g] {
+					A.lockish[f] = true
+					changed = true
+					break
+				}
+			}
+		}
+	}
+}
 
 func (A *Analyzer) need(f *ssa.Function) {
 	if f == nil || f.Blocks == nil || A.reach[f] {
@@ -1187,8 +1266,25 @@ func (fa *funcAnalysis) opaqueCall(f *ssa.Function, cc *ssa.CallCommon, ins ssa.
 	site := fa.site(ins)
 	switch {
 	case recv == "sync.Mutex" || recv == "sync.RWMutex":
-		if len(cc.Args) > 0 && locOf(cc.Args[0]) == fa.A.syncedM {
-			fa.sum.API["<lock e.m>"] = true
+		if len(cc.Args) > 0 {
+			switch r := cc.Args[0].(type) {
+			case *ssa.Parameter:
+				// a mutex handed in by the caller: which one is known only at the call site
+				// (the section walk resolves it; until then: may be the SyncedEnforcer's)
+				fa.sum.API["<lock ?>"] = true
+			case *ssa.FreeVar:
+				// the receiver of a bound method value (e.m.RUnlock used as a func())
+				for l := range fa.A.boundRecv[fa.fn] {
+					if l == fa.A.syncedM || l == "sync.RWMutex" || l == "sync.Mutex" {
+						fa.sum.API["<lock e.m>"] = true
+					}
+				}
+				_ = r
+			default:
+				if locOf(cc.Args[0]) == fa.A.syncedM {
+					fa.sum.API["<lock e.m>"] = true
+				}
+			}
 		}
 		return
 	case recv == "sync.Map":
@@ -1437,6 +1533,18 @@ func pointeeLoc(v ssa.Value) string {
 // retLocs records which shared memory result idx may point to (depth 0 only: the object the
 // caller can read or write through the returned reference without any lock).
 func (fa *funcAnalysis) retLocs(idx int, v ssa.Value, seen map[ssa.Value]bool, ins ssa.Instruction) {
+	fa.retLocsTo(idx, v, seen, ins, func(loc string, roots TagSet, site string) {
+		for _, r := range roots.realRoots() {
+			k := retKey{idx, loc, r}
+			if old, ok := fa.sum.RetLoc[k]; !ok || site < old {
+				fa.sum.RetLoc[k] = site
+			}
+		}
+	})
+}
+
+// retLocsTo is retLocs with the sink left open (roots are relative to fa's frame).
+func (fa *funcAnalysis) retLocsTo(idx int, v ssa.Value, seen map[ssa.Value]bool, ins ssa.Instruction, sink func(loc string, roots TagSet, site string)) {
 	if v == nil || seen[v] || !hasPointers(v.Type()) {
 		return
 	}
@@ -1451,12 +1559,7 @@ func (fa *funcAnalysis) retLocs(idx int, v ssa.Value, seen map[ssa.Value]bool, i
 		if os.Getenv("TR_DEBUG_RET") != "" && len(roots.realRoots()) > 0 {
 			fmt.Fprintf(os.Stderr, "retloc %s idx %d loc %s roots %v via %T %s\n", fnName(fa.fn), idx, loc, roots, v, v.String())
 		}
-		for _, r := range roots.realRoots() {
-			k := retKey{idx, loc, r}
-			if old, ok := fa.sum.RetLoc[k]; !ok || site < old {
-				fa.sum.RetLoc[k] = site
-			}
-		}
+		sink(loc, roots, site)
 	}
 	fromCall := func(c *ssa.Call, ridx int) {
 		ts, opaque, bi := fa.resolve(c.Common())
@@ -1482,18 +1585,18 @@ func (fa *funcAnalysis) retLocs(idx int, v ssa.Value, seen map[ssa.Value]bool, i
 	switch x := v.(type) {
 	case *ssa.Phi:
 		for _, e := range x.Edges {
-			fa.retLocs(idx, e, seen, ins)
+			fa.retLocsTo(idx, e, seen, ins, sink)
 		}
 	case *ssa.MakeInterface:
-		fa.retLocs(idx, x.X, seen, ins)
+		fa.retLocsTo(idx, x.X, seen, ins, sink)
 	case *ssa.ChangeType:
-		fa.retLocs(idx, x.X, seen, ins)
+		fa.retLocsTo(idx, x.X, seen, ins, sink)
 	case *ssa.ChangeInterface:
-		fa.retLocs(idx, x.X, seen, ins)
+		fa.retLocsTo(idx, x.X, seen, ins, sink)
 	case *ssa.TypeAssert:
-		fa.retLocs(idx, x.X, seen, ins)
+		fa.retLocsTo(idx, x.X, seen, ins, sink)
 	case *ssa.Slice:
-		fa.retLocs(idx, x.X, seen, ins)
+		fa.retLocsTo(idx, x.X, seen, ins, sink)
 	case *ssa.Call:
 		fromCall(x, 0)
 	case *ssa.UnOp:
@@ -1501,18 +1604,21 @@ func (fa *funcAnalysis) retLocs(idx int, v ssa.Value, seen map[ssa.Value]bool, i
 			if a, ok := x.X.(*ssa.Alloc); ok {
 				// a result variable (functions with defer keep their results in cells)
 				if ci := fa.A.cell(a); !ci.escapes {
-					same := true
 					for _, st := range ci.stores {
-						if st.g != fa.fn {
-							same = false
+						if st.g == fa.fn {
+							fa.retLocsTo(idx, st.val, seen, ins, sink)
+							continue
 						}
+						// assigned inside a closure of this function (named results set by a
+						// func literal run under the lock): what the closure stores, seen from
+						// here -- its captured variables are followed to this frame
+						g := st.g
+						gfa := fa.A.frame(g)
+						gfa.retLocsTo(idx, st.val, map[ssa.Value]bool{}, ins, func(loc string, roots TagSet, site string) {
+							sink(loc, fa.A.lift(g, fa.fn, Val{roots, TagSet{}, TagSet{}})[0], site)
+						})
 					}
-					if same {
-						for _, st := range ci.stores {
-							fa.retLocs(idx, st.val, seen, ins)
-						}
-						return
-					}
+					return
 				}
 			}
 		}
